@@ -871,17 +871,23 @@ fn report_all_failed_clauses_for_rules<'value>(
         all_rules(checks@) ==> rule_entry_names(res@) == failed_names(checks@),
 {
     let mut clauses = Vec::with_capacity(checks.len());
-    for current in it: checks
+    let verif_s0 = checks;
+let mut verif_i0: usize = 0;
+while verif_i0 < verif_s0.len()
         invariant
             wf_recs(checks@),
-            it.seq().len() == checks@.len(),
-            forall|i: int| 0 <= i < it.seq().len() ==> *(#[trigger] it.seq()[i]) == checks@[i],
-            shapes(clauses@) == many_recs(checks@, it.index@ as nat),
+            verif_s0 == checks,
+            verif_i0 <= checks@.len(),
+            shapes(clauses@) == many_recs(checks@, verif_i0 as nat),
+        decreases checks@.len() - verif_i0,
 {
+let current = &verif_s0[verif_i0];
+verif_i0 = verif_i0 + 1;
+
                 proof {
-            assert(*current == checks@[it.index@ as int]);
-            assert(many_recs(checks@, (it.index@ + 1) as nat) == many_recs(checks@, it.index@ as nat) + one_rec(*current));
-            assert(many_recs(checks@, it.index@ as nat) + Seq::<Shape>::empty() =~= many_recs(checks@, it.index@ as nat));
+            assert(*current == checks@[verif_i0 - 1]);
+            assert(many_recs(checks@, verif_i0 as nat) == many_recs(checks@, (verif_i0 - 1) as nat) + one_rec(*current));
+            assert(many_recs(checks@, (verif_i0 - 1) as nat) + Seq::<Shape>::empty() =~= many_recs(checks@, (verif_i0 - 1) as nat));
         }
 match &current.container {
             Some(RecordType::RuleCheck(NamedStatus {
